@@ -1,6 +1,7 @@
 import RbV.Ref.BS
 import RbV.Model.LFMapping
 import RbV.Model.LFSortedCheck
+import RbV.Model.SampledSA
 /-!
 # C05 — FM-index backward search returns exactly the pattern's occurrences
 
@@ -189,6 +190,32 @@ example : BSProp [3, 1, 4, 4, 1, 2, 1, 0] [7, 6, 4, 1, 5, 0, 3, 2] [3, 4, 1, 2, 
     (BSModel.backwardSearch (LF.lessRef (LF.bwtOf [3, 1, 4, 4, 1, 2, 1, 0] [7, 6, 4, 1, 5, 0, 3, 2]))
       (LF.occRef (LF.bwtOf [3, 1, 4, 4, 1, 2, 1, 0] [7, 6, 4, 1, 5, 0, 3, 2])) 8 [3, 4, 1, 2, 1]) :=
   backward_search_correct_decidable _ _ _ (by decide) (by decide) (by decide) (by decide)
+
+/-- **positions resolved through a sampled suffix array**: the mirror model of `SampledSuffixArray::get` (LF walk to
+the next sampled row, or to a row whose BWT symbol is the sentinel, for which `sample` stores an extra entry) returns
+`sa[index]` for every row, every sampling rate `s` and every text with one or many sentinels, provided the array
+passes `sortedAllB` and the stored samples / extra rows hold what `SuffixArray::sample` puts there.  Hence
+`Interval::occ` gives the same positions through the sampled array as through the full one. -/
+theorem sampled_get_correct (t sa : List Nat) (s : Nat) (sampleGet extraGet : Nat → Nat)
+    (hsorted : LF.sortedAllB t sa = true)
+    (hsample : ∀ pos, pos < sa.length → pos % s = 0 → sampleGet (pos / s) = sa.getD pos 0)
+    (hextra : ∀ pos, pos < sa.length → pos % s ≠ 0 →
+      (LF.bwtOf t sa).getD pos 0 = t.getD (t.length - 1) 0 → extraGet pos = sa.getD pos 0)
+    (index : Nat) (hi : index < sa.length) :
+    SampledModel.get s (LF.bwtOf t sa) (t.getD (t.length - 1) 0) (LF.lessRef (LF.bwtOf t sa))
+      (LF.occRef (LF.bwtOf t sa)) sampleGet extraGet sa.length index = some (sa.getD index 0) := by
+  have hperm : sa.Perm (List.range t.length) := by
+    simp only [LF.sortedAllB, Bool.and_eq_true] at hsorted
+    exact List.isPerm_iff.mp hsorted.1
+  exact SampledModel.get_correct t sa s sampleGet extraGet
+    (fun a ha => LF.sortedAllB_sound t sa hsorted a (Ne.symm ha)) hperm hsample hextra index hi
+
+-- GATTACA$, sampling rate 3: row 4 (position 5) is reached from the sample of row 6 … every row gives sa[row]
+example : (List.range 8).map (fun i => SampledModel.get 3 (LF.bwtOf [3, 1, 4, 4, 1, 2, 1, 0] [7, 6, 4, 1, 5, 0, 3, 2]) 0
+      (LF.lessRef (LF.bwtOf [3, 1, 4, 4, 1, 2, 1, 0] [7, 6, 4, 1, 5, 0, 3, 2]))
+      (LF.occRef (LF.bwtOf [3, 1, 4, 4, 1, 2, 1, 0] [7, 6, 4, 1, 5, 0, 3, 2]))
+      (fun q => [7, 6, 4, 1, 5, 0, 3, 2].getD (q * 3) 0) (fun _ => 0) 8 i)
+    = [7, 6, 4, 1, 5, 0, 3, 2].map some := by decide
 
 /-- … hence accepted by the oracle: on a sorted index the checker and the mirror model agree -/
 theorem model_accepted (t sa pat : List Nat) (hp : pat ≠ []) (hn : 0 < t.length)
